@@ -210,3 +210,44 @@ func H_C02_keys() {
 	verif.Assert(verif.Eq(got, want), "projection")
 	verif.Reach("end")
 }
+
+// H_C02_precedence: operator precedence and associativity as parsed.
+func H_C02_precedence() {
+	n := verif.Choose("rows", maxRows(1, 2)+1)
+	form := verif.Choose("form", 4)
+	doc, rows := numTable(n, "a", "b")
+	c := verif.F64("c")
+	var sql string
+	switch form {
+	case 0:
+		sql = verif.SQL("SELECT a + b * ? AS v FROM t", c)
+	case 1:
+		sql = verif.SQL("SELECT a - b - ? AS v FROM t", c)
+	case 2:
+		sql = verif.SQL("SELECT a / b / ? AS v FROM t", c)
+	case 3:
+		sql = verif.SQL("SELECT -a * b + ? * (a - b) AS v FROM t", c)
+	}
+	got, ok := runQuery(doc, sql)
+	if !ok {
+		return
+	}
+	var want []any
+	for _, r := range rows {
+		a, b := f64of(r["a"]), f64of(r["b"])
+		var v float64
+		switch form {
+		case 0:
+			v = a + b*c
+		case 1:
+			v = (a - b) - c
+		case 2:
+			v = (a / b) / c
+		case 3:
+			v = (-1*a)*b + c*(a-b)
+		}
+		want = append(want, Map{"v": v})
+	}
+	verif.Assert(verif.Eq(got, want), "projection")
+	verif.Reach("end")
+}
